@@ -297,11 +297,15 @@ func ExtractGroupByFieldsFromSeriesId(seriesId string, groupByFields []string) (
 	var groupKeyValuePairs []string
 	var values []string
 	for _, field := range groupByFields {
-		start := strings.Index(seriesId, field+":")
+		// the key must start right after '{' or ',': a bare search for "name:" also hits "hostname:"
+		start := strings.Index(seriesId, "{"+field+":")
+		if start == -1 {
+			start = strings.Index(seriesId, ","+field+":")
+		}
 		if start == -1 {
 			continue
 		}
-		start += len(field) + 1 // +1 to skip the ':'
+		start += len(field) + 2 // skip the leading '{' or ',' and the ':'
 		end := strings.Index(seriesId[start:], ",")
 		if end == -1 {
 			end = len(seriesId)
